@@ -31,6 +31,7 @@ TokText(id) == CASE id = "s.pn" -> "ex:a"           [] id = "s.abs" -> "<http://
                  [] id = "o.lang" -> "\"hola\"@es"
                  [] id = "o.spec" -> "\"a # b ; c , d . e\""    [] id = "o.esc" -> "\"q\\\"u\\\\\""
                  [] id = "o.cls" -> "ex:C"
+                 [] id = "o.https" -> "<https://s.org/x>"  [] id = "s.https" -> "<https://s.org/y#z>"  [] id = "o.urn" -> "<urn:x:1>"
                  [] OTHER -> id                      \* punctuation ; , .
 \* token id -> the RDF term a standard Turtle parser produces (objects: kind + IRI / label, literals: datatype)
 TokTerm(id) == CASE id = "s.pn" -> <<"IRI", EXNS \o "a">>   [] id = "s.abs" -> <<"IRI", "http://x.org/s">>
@@ -45,9 +46,11 @@ TokTerm(id) == CASE id = "s.pn" -> <<"IRI", EXNS \o "a">>   [] id = "s.abs" -> <
                  [] id = "o.lang" -> <<LANG_STRING, "">>
                  [] id = "o.spec" -> <<XSD_STRING, "">>      [] id = "o.esc" -> <<XSD_STRING, "">>
                  [] id = "o.cls" -> <<"IRI", EXNS \o "C">>
-SubjToks == {"s.pn", "s.abs", "s.rel", "s.bn"}
+                 [] id = "o.https" -> <<"IRI", "https://s.org/x">>  [] id = "s.https" -> <<"IRI", "https://s.org/y#z">>
+                 [] id = "o.urn" -> <<"IRI", BASE \o "urn:x:1">>      \* documented divergence: only http(s) IRIs count as absolute
+SubjToks == {"s.pn", "s.abs", "s.rel", "s.bn", "s.https"}
 PredToks == {"p.pn", "p.a", "p.abs", "p.type"}
-ObjToks == {"o.pn", "o.abs", "o.rel", "o.bn", "o.int", "o.str", "o.xsd", "o.dti", "o.dtp", "o.lang", "o.spec", "o.esc", "o.cls"}
+ObjToks == {"o.pn", "o.abs", "o.rel", "o.bn", "o.int", "o.str", "o.xsd", "o.dti", "o.dtp", "o.lang", "o.spec", "o.esc", "o.cls", "o.https"}
 Punct == {";", ",", "."}
 
 \* abstract triples of a token sequence S P O (, O)* (; P O (, O)*)* . ...   (what a standard parser yields)
